@@ -738,6 +738,18 @@ func (r *Run) Check() (f *wx.Failure) {
 			found = append(found, f)
 		}
 	}
+	if or&OIter != 0 && or&OState != 0 && len(found) == 0 {
+		// the iteration oracle used (and wrote into) everything the open queries handed out: the world is still what the
+		// model says, and still consistent
+		if f := r.checkStateSafe(); f != nil {
+			f.Msg = "after iterating all filters and using the query accessors: " + f.Msg
+			found = append(found, f)
+		} else if or&OInv != 0 && !noInv {
+			if err := r.w.VerifCheckInvariants(); err != nil {
+				found = append(found, r.fail("C01", "invariant-after-iteration:"+invClass(err.Error()), "after iterating all filters and using the query accessors: internal structure corrupted: "+err.Error()))
+			}
+		}
+	}
 	for _, f := range found {
 		if f.Prop == r.cfg.Prop {
 			return f
